@@ -140,7 +140,7 @@ def run_case(case, method="collect", bare=False):
         except Exception as e:
             raised = type(e).__name__ + ": " + str(e)[:200]
     info = {"csvpath": text.replace(path, "f.csv"), "records": case["records"], "method": method, "raised": raised,
-            "adjacent_refs": bool(case["prog"].get("_adjacent_refs"))}
+            "adjacent_refs": bool(case["prog"].get("_adjacent_refs")), "ragged_collect": bool(case["prog"].get("_ragged"))}
     try:
         evs = [_enc_event(e) for e in events]
         ret_idx = [e["k"] for e in events if e["ret"]]
